@@ -95,6 +95,10 @@ def run(sid, checks, tier, seed):
     if r.returncode != 0:
         print("patch does not apply to /repo:", r.stderr)
         return 1
+    # the evidence files describe runs on the unchanged tree: keep them out of the way of runs on a changed one
+    evd, evbak = os.path.join(ROOT, "evidence"), os.path.join(ROOT, "evidence.seeded-bak")
+    if os.path.isdir(evd) and not os.path.exists(evbak):
+        shutil.copytree(evd, evbak)
     try:
         ids = checks or [meta["property"]]
         for pid in ids:
@@ -113,6 +117,9 @@ def run(sid, checks, tier, seed):
             print(f"{sid} {pid} {tier} seed={seed}: {verdict} {sigs[:3]}", flush=True)
     finally:
         sh("git -C /repo checkout -- .")
+        if os.path.isdir(evbak):
+            shutil.rmtree(evd, ignore_errors=True)
+            shutil.move(evbak, evd)
     json.dump(meta, open(os.path.join(d, "meta.json"), "w"), indent=1)
     return 0
 
